@@ -70,6 +70,58 @@ with wf_arg (a : carg) : bool :=
   end.
 Definition wf_tmpl (t : ctmpl) : bool := forallb wf_piece t.
 
+(* ---- printing with layered escapes: literal text over ALL runes ------------------------------ *)
+(* Every layer a text travels through (statement scanner, argument splitter, compile of the
+   argument) removes exactly one backslash level.  [lesc] adds one level to literal text: a
+   backslash before each syntax character and each white-space rune.  A literal of a template
+   that still has j layers to go before it is compiled is written [lescn (S j)]; the arguments
+   of a statement have two more layers to go than the template the statement occurs in. *)
+Definition special (c : N) : bool := negb (safe c) || is_space c.
+Definition lesc1 (c : N) : str := if special c then [92; c] else [c].
+Definition lesc (s : str) : str := flat_map lesc1 s.
+Fixpoint lescn (n : nat) (s : str) : str := match n with O => s | S m => lesc (lescn m s) end.
+
+Fixpoint eprint_piece (j : nat) (c : cpiece) : str :=
+  match c with
+  | CLit s => lescn (S j) s
+  | CVar pre q w post => 123 :: pre ++ quote q w ++ post ++ [125]
+  | CCall pre qf f args post =>
+      123 :: pre ++ quote qf f ++ concat (map (eprint_arg j) args) ++ post ++ [125]
+  end
+with eprint_arg (j : nat) (a : carg) : str :=
+  match a with
+  | CArg sep q body => sep ++ quote q (concat (map (eprint_piece (S (S j))) body))
+  end.
+Definition eprint (j : nat) (t : ctmpl) : str := concat (map (eprint_piece j) t).
+
+(* no quoted item anywhere inside (a quoted argument cannot contain another quoted item) *)
+Fixpoint qfree (c : cpiece) : bool :=
+  match c with
+  | CLit _ => true
+  | CVar _ q _ _ => negb q
+  | CCall _ qf _ args _ => negb qf && forallb qfree_arg args
+  end
+with qfree_arg (a : carg) : bool :=
+  match a with CArg _ q body => negb q && forallb qfree body end.
+Definition piece_nonempty (c : cpiece) : bool := match c with CLit s => nonempty s | _ => true end.
+
+(* admissible: literal text is arbitrary; words and names as in [wf_piece]; an unquoted argument
+   is non-empty (white space in it is escaped, so it need not be quoted) *)
+Fixpoint wfe_piece (c : cpiece) : bool :=
+  match c with
+  | CLit _ => true
+  | CVar pre q w post => ws pre && ws post && item_ok q w
+  | CCall pre qf f args post =>
+      ws pre && ws post && item_ok qf f && nonempty args && forallb wfe_arg args
+  end
+with wfe_arg (a : carg) : bool :=
+  match a with
+  | CArg sep q body =>
+      ws sep && nonempty sep && forallb wfe_piece body &&
+      (if q then forallb qfree body else existsb piece_nonempty body)
+  end.
+Definition wfe_tmpl (t : ctmpl) : bool := forallb wfe_piece t.
+
 (* ---- normal form of an expression tree --------------------------------------------------- *)
 (* the effect of a sequence of pieces on (stages, pending literal text) *)
 Fixpoint absorb (stages : tmpl) (sb : str) (ps : tmpl) : tmpl * str :=
@@ -196,8 +248,9 @@ Inductive claim :=
 | KUnterm (c : ctmpl) (q : str)                 (* s = print c { q, q never closes that brace *)
 | KMissing (c : ctmpl) (call : cpiece) (c' : ctmpl)   (* s = print c call print c', head of call unknown *)
 | KNested (c : ctmpl) (f lit w : str)           (* s = print c {f lit{w}}: error inside an argument *)
-| KArg (c : ctmpl) (f x : str).                 (* s = print c {f x}, x any text copied verbatim: the
+| KArg (c : ctmpl) (f x : str)                 (* s = print c {f x}, x any text copied verbatim: the
                                                    errors are those of x alone, re-based (C09_err_rebase) *)
+| KEscTree (c : ctmpl).                         (* s = eprint 0 c: layered escapes, literals over all runes *)
 
 (* q has no backslash and never closes the statement it is in (k: braces opened inside q so far) *)
 Fixpoint stays_open (k : nat) (q : str) : bool :=
@@ -239,6 +292,7 @@ Definition claim_static (k : claim) (s : str) : bool :=
   | KArg c f x =>
       wf2 c && is_plain_probe f && okO 0 x && okS 0 false x && nonempty x
       && str_eqb (print c ++ 123 :: f ++ 32 :: x ++ [125]) s
+  | KEscTree c => wfe_tmpl c && fn_ok_tmpl probe_fs c && str_eqb (eprint 0 c) s
   end.
 
 (* what the property then says about output and compile errors (kind code, offset) *)
@@ -261,6 +315,7 @@ Definition claim_expect (k : claim) : option (str * list (N * N)) :=
       | Ok (tx, ex) => Some (eval (erase c) ++ f ++ 40 :: eval tx ++ [41], codes (rebase (olen (print c)) ex))
       | Panic => None
       end
+  | KEscTree c => Some (eval (erase c), [])
   end.
 
 Definition C09_check (k : claim) (s : str) (o : obs) : bool :=
